@@ -331,9 +331,12 @@ class SpecMixin:
                 bound["self"] = selfsv
         elif selfsv is not None and not is_static and "self" in names:
             bound["self"] = selfsv
-        argv = [self.ev(x, st, ctx) for x in node.args]
         if any(isinstance(x, ast.Starred) for x in node.args):
             raise Unsupported("star-args call")
+        argv = []
+        for i, x in enumerate(node.args):
+            pty = c.params.get(pos[i]) if i < len(pos) else None
+            argv.append(self.ev_hinted(x, pty, st, ctx))
         if len(argv) > len(pos):
             raise Unsupported("too many positional arguments for %s" % c.qualname)
         for n, v in zip(pos, argv):
@@ -341,7 +344,7 @@ class SpecMixin:
         for k in node.keywords:
             if k.arg is None:
                 raise Unsupported("**kwargs call")
-            bound[k.arg] = self.ev(k.value, st, ctx)
+            bound[k.arg] = self.ev_hinted(k.value, c.params.get(k.arg), st, ctx)
         for n in names:
             if n not in bound:
                 if n in defaults:
@@ -365,6 +368,20 @@ class SpecMixin:
                 v = self.new_list(st, ty.args[0], []) if ty.kind == "list" else self.new_dict(st, ty, [], [])
             out[n] = self.coerce(v, ty, st)
         return out
+
+    def ev_hinted(self, node, ty, st, ctx):
+        """evaluate an expression; empty list / dict displays take the expected type"""
+        if ty is not None and ty.kind == "opt":
+            ty = ty.args[0]
+        saved = (self.hint_elem, self.hint_dict)
+        try:
+            if ty is not None and ty.kind == "list":
+                self.hint_elem = ty.args[0]
+            if ty is not None and ty.kind == "dict":
+                self.hint_dict = ty
+            return self.ev(node, st, ctx)
+        finally:
+            self.hint_elem, self.hint_dict = saved
 
     def callee_state(self, st, params, extra=None):
         cs = st.copy()
